@@ -326,6 +326,7 @@ class GlobTap:
     def __init__(self, jobs):
         self.jobs = jobs
         self.loops = []
+        self.examined = []
 
     def __enter__(self):
         self.orig = pathlib.Path.glob
@@ -347,10 +348,26 @@ class GlobTap:
                 yield p
 
         pathlib.Path.glob = glob
+        # the order in which the main loop really examines the directories (it may sort what glob yields): every
+        # examined directory is loaded through tools.jobs.load_job
+        import experimaestro.tools.jobs as tj
+        self.tj, self.orig_load = tj, tj.load_job
+
+        def load_job(job_path, *a, **kw):
+            try:
+                rel = Path(job_path).absolute().relative_to(tap.jobs).parts
+                if len(rel) == 3:
+                    tap.examined.append([rel[0], rel[1]])
+            except ValueError:
+                pass
+            return tap.orig_load(job_path, *a, **kw)
+
+        tj.load_job = load_job
         return self
 
     def __exit__(self, *a):
         pathlib.Path.glob = self.orig
+        self.tj.load_job = self.orig_load
 
 
 def do_fix(wd, op):
@@ -382,7 +399,7 @@ def do_fix(wd, op):
     finally:
         os.chdir(cwd)
     logging.disable(logging.CRITICAL)
-    return dict(op=op, fix=fix, cleanup=cleanup, loops=tap.loops, error=err)
+    return dict(op=op, fix=fix, cleanup=cleanup, loops=tap.loops, examined=tap.examined, error=err)
 
 
 def recompute(params_path):
